@@ -21,7 +21,11 @@ T2 == L0s \cup Comb(T1) \cup {[k |-> "cx", a |-> "m", e |-> c] : c \in C1s}
 Alphabet == {W("A"), W("B"), W("and"), W("or"), W("not"), LP, RP}
 Strings == UNION {[1..n -> Alphabet] : n \in 1..MaxLen}
 
-Init == x \in (IF Mode = "ast" THEN T2 ELSE Strings)
+\* mode "lex": every string value over LexAlphabet up to MaxLen characters, printed, followed by every trailer
+LexAlphabet == {"a", " ", "(", ")", "[", "]", BSL, QUOTE, "\t"}
+LexStrings(n) == UNION {[1..k -> LexAlphabet] : k \in 0..n}
+Trailers == {<<>>, <<")">>, <<")", " ", "a">>, <<"]">>, <<")", QUOTE>>, <<" ", QUOTE, ")">>}
+Init == x \in (IF Mode = "ast" THEN T2 ELSE IF Mode = "lex" THEN LexStrings(MaxLen) ELSE Strings)
 Next == UNCHANGED x
 Count(r) == TLCSet(r, TLCGet(r) + 1)
 Bad(tag) == PrintT(<<tag, x>>) /\ FALSE
@@ -36,7 +40,13 @@ InvStr == LET p == PegParse(x, Lim, Atoms) r == RefTree(x, Atoms)
              /\ (Nest(x) <= Lim \/ p = Err \/ Bad("LIMIT"))
              /\ (r = Err \/ Nest(x) > Lim \/ p = r \/ Bad("INCOMPLETE"))
              /\ ((r # Err /\ Nest(x) > Lim) => Count(3))
-MCInv == IF Mode = "ast" THEN InvAst ELSE InvStr
+InvLex == LET q == JsonQuote(x)
+          IN /\ Count(1)
+             /\ \A tr \in Trailers : LET t == q \o tr
+                                   IN /\ (RefQuotedEnd(t) = Len(q) + 1 \/ Bad("LEXREF"))
+                                      /\ (ScanQuoted(t) = RefQuotedEnd(t) \/ Bad("LEXSCAN"))
+             /\ (IF Len(x) >= 1 /\ x[Len(x)] = BSL THEN Count(2) ELSE Count(3))
+MCInv == IF Mode = "ast" THEN InvAst ELSE IF Mode = "lex" THEN InvLex ELSE InvStr
 ASSUME \A r \in 1..3 : TLCSet(r, 0)
 \* CENSUS: cases, accepted, rejected only because of the limit
 Census == PrintT(<<"CENSUS", TLCGet(1), TLCGet(2), TLCGet(3)>>)
